@@ -236,6 +236,23 @@ def generation_writers(run, tier, with_bounded=True):
         return [o for o in frames.obligations(fnode) if "append mode" in o[0] or "shell redirection" in o[0] or "truncating mode" in o[0]]
     sfailed = structural_generic(run, ["generation/generator.py"], f1_only, "pyvc.frames (AST analysis)",
                                  "append-mode files are truncated earlier in the same call; shell redirections overwrite")
+    # F7: no module of the package changes numpy's print options (the A-str reading of str(<label array>) as the full text depends on it)
+    import ast as _ast, os as _os
+    fq7 = "esr/**::process-wide formatting state"
+    run.functions.setdefault(fq7, {"file": "esr/", "dropped": [], "obligations": 0, "discharged": 0, "note": "frame obligation F7 (pyvc/frames.py) on every module of the package"})
+    root_ = _os.path.join(run.snapshot, "esr")
+    for dp, dn, fns in _os.walk(root_):
+        for fn_ in sorted(fns):
+            if fn_.endswith(".py"):
+                rel_ = _os.path.relpath(_os.path.join(dp, fn_), root_)
+                try:
+                    tree_ = _ast.parse(open(_os.path.join(dp, fn_)).read())
+                except SyntaxError:
+                    continue
+                for desc, ok, line in frames.format_state_obligations(tree_, "esr/" + rel_):
+                    run.add_obligation("frames/" + desc, fq7, "proved" if ok else "refuted", "pyvc.frames (AST analysis)", 0.0, desc)
+                    if not ok:
+                        sfailed.append((fq7, desc, line))
     found = False
     if with_bounded:
         r = run.harness("rt_c08.py", {"mode": "writers", "seed": run.seed, "n_mixed": 300 if tier == "quick" else 3000}, timeout=900)
@@ -428,7 +445,7 @@ def report_subst_tables(run, failed, unsupported):
     if unsupported:
         run.downgrades.append({"function": "esr/generation/simplifier.py::sympy_simplify [substitution tables]",
                                "reason": "rows outside the translator's subset: " + "; ".join(unsupported)[:600]})
-    if not failed or run.violations:
+    if not failed:
         return
     qs = [(f, f[3]) for f in failed if f[3] is not None]
     answers = []
